@@ -12,7 +12,9 @@ package state
 //
 //	add    AddNotice(user?, type, key, {Data, RepeatAfter}) without explicit Time
 //	bad    AddNotice with an invalid type/key (must be refused, nothing happens)
-//	tick   move the mocked clock (0 ticks between adds = same clock reading)
+//	tick   time passes (no tick between adds = same clock reading)
+//	step   the wall clock is stepped BACK (settimeofday/NTP step) while the process
+//	       keeps running: the monotonic clock is unaffected
 //	poll   client asks Notices(filter, After = max last-repeated it has seen)
 //	wait   1..3 clients call WaitNotices in goroutines while nested adds/ticks run
 //	reload the state is serialised and read back (daemon restart)
@@ -54,6 +56,7 @@ import (
 	"strings"
 	"testing"
 	"time"
+	"unsafe"
 
 	"github.com/snapcore/snapd/verifkit"
 	"pgregory.net/rapid"
@@ -77,7 +80,7 @@ type c08Op struct {
 	Repeat int64             `json:"repeat,omitempty"` // RepeatAfter, ns
 	Data   map[string]string `json:"data,omitempty"`
 
-	// tick: ns, may be negative (clock stepped back)
+	// tick: ns that pass (>0); step: ns the wall clock is set back (>0)
 	D int64 `json:"d,omitempty"`
 
 	// poll
@@ -122,7 +125,7 @@ func (n *c08Notice) String() string {
 type c08Event struct {
 	n     *c08Notice
 	at    int64 // occurrence time, ns since base
-	clock int64 // clock reading when it was added
+	clock int   // which clock reading it was added at (count of ticks/steps so far)
 }
 
 type c08ClientState struct {
@@ -192,19 +195,27 @@ func c08Views(ns []*Notice) ([]c08View, error) {
 
 const c08Watchdog = 10 * time.Second
 
+// the model cannot follow the state any further (see steppedBack); no verdict
+var errC08EndOfCase = errors.New("c08: end of case")
+
 type c08Exec struct {
 	st      *State
 	base    time.Time
-	clock   int64
+	clock   int64 // wall clock, ns since base
+	mono    int64 // monotonic clock, ns since start
+	gen     int   // number of ticks/steps so far: identifies a clock reading
 	hasLast bool
-	lastTs  int64
-	notices map[string]*c08Notice
-	ids     map[string]bool
-	events  []c08Event
-	clients []*c08ClientState
-	labels  map[string]bool
-	stats   map[string]int
-	trail   []string
+	// for the narrow classification of F-C08-1 only
+	addSinceReload bool // an occurrence time was assigned by this "process"
+	stepSinceAdd   bool // the wall clock was stepped back since then
+	lastTs         int64
+	notices        map[string]*c08Notice
+	ids            map[string]bool
+	events         []c08Event
+	clients        []*c08ClientState
+	labels         map[string]bool
+	stats          map[string]int
+	trail          []string
 	// watchdog expired (liveness verdicts need confirmation)
 	timedOut bool
 }
@@ -231,7 +242,56 @@ func (x *c08Exec) fmtOff(off int64) string {
 	return fmt.Sprintf("T%+dns", off)
 }
 
-func (x *c08Exec) setClock() { MockTime(x.at(x.clock)) }
+// The mocked clock returns what time.Now() returns in production: a wall
+// clock reading together with a monotonic clock reading.
+func (x *c08Exec) setClock() { MockTime(c08MonoTime(x.at(x.clock), c08MonoStart+x.mono)) }
+
+const c08MonoStart = int64(5 * time.Second)
+
+type c08TimeLayout struct {
+	wall uint64
+	ext  int64
+	loc  *time.Location
+}
+
+var c08WallSecOffset int64 // seconds field of a monotonic-carrying Time minus Unix seconds
+
+// c08MonoTime builds the Time a time.Now() call returns when the wall clock
+// reads `wall` and the monotonic clock reads `mono` ns.  There is no public
+// constructor for that (only time.Now makes such values), hence the layout
+// knowledge; c08TimeSelfTest verifies it against the running toolchain.
+func c08MonoTime(wall time.Time, mono int64) time.Time {
+	var t time.Time
+	p := (*c08TimeLayout)(unsafe.Pointer(&t))
+	p.wall = 1<<63 | uint64(wall.Unix()+c08WallSecOffset)<<30 | uint64(wall.Nanosecond())
+	p.ext = mono
+	return t
+}
+
+func c08TimeSelfTest() error {
+	if unsafe.Sizeof(time.Time{}) != unsafe.Sizeof(c08TimeLayout{}) {
+		return fmt.Errorf("time.Time has an unexpected size")
+	}
+	now := time.Now()
+	p := (*c08TimeLayout)(unsafe.Pointer(&now))
+	if p.wall>>63 != 1 {
+		return fmt.Errorf("time.Now() carries no monotonic reading")
+	}
+	c08WallSecOffset = int64((p.wall<<1)>>31) - now.Unix()
+	w := time.Date(2031, 5, 6, 7, 8, 9, 123456789, time.UTC)
+	a, b := c08MonoTime(w, 1000), c08MonoTime(w.Add(-time.Hour), 3000)
+	switch {
+	case !a.Round(0).Equal(w), !b.Round(0).Equal(w.Add(-time.Hour)), !a.UTC().Equal(w):
+		return fmt.Errorf("crafted wall clock reading is off: %v / %v", a, b)
+	case b.Sub(a) != 2000, !b.After(a), a.After(b), !a.Add(5).Round(0).Equal(w.Add(5)), a.Add(5).Sub(a) != 5:
+		return fmt.Errorf("crafted monotonic reading is not honoured: %v / %v", a, b)
+	}
+	again := c08MonoTime(now.Round(0), p.ext)
+	if q := (*c08TimeLayout)(unsafe.Pointer(&again)); q.wall != p.wall || q.ext != p.ext {
+		return fmt.Errorf("cannot rebuild the value of time.Now()")
+	}
+	return nil
+}
 
 func c08NoticeKey(user int64, typ, key string) string {
 	return fmt.Sprintf("%d|%s|%s", user, typ, key)
@@ -311,8 +371,16 @@ func (x *c08Exec) add(op c08Op) (*c08Event, error) {
 	occ := x.clock
 	if x.hasLast && occ <= x.lastTs {
 		occ = x.lastTs + 1
+		if x.addSinceReload && x.stepSinceAdd {
+			// Wall clock set back below the previous occurrence time while
+			// the process runs.  See steppedBack.
+			if stop, err := x.steppedBack(op, id, occ); stop {
+				return nil, err
+			}
+		}
 	}
 	x.hasLast, x.lastTs = true, occ
+	x.addSinceReload, x.stepSinceAdd = true, false
 
 	k := c08NoticeKey(op.User, op.Type, op.Key)
 	n, ok := x.notices[k]
@@ -362,14 +430,53 @@ func (x *c08Exec) add(op c08Op) (*c08Event, error) {
 		x.logf("add %v repeat-after=%v at %s: occurrence %d suppressed (last repeated %s)", n, time.Duration(op.Repeat), x.fmtOff(occ), n.occ, x.fmtOff(n.lastRep))
 		return nil, nil
 	}
-	if len(x.events) > 0 && x.events[len(x.events)-1].clock == x.clock {
+	if len(x.events) > 0 && x.events[len(x.events)-1].clock == x.gen {
 		x.labels["same-tick"] = true
 		x.stats["same-tick"]++
 	}
-	x.events = append(x.events, c08Event{n: n, at: occ, clock: x.clock})
+	x.events = append(x.events, c08Event{n: n, at: occ, clock: x.gen})
 	x.stats["deliveries"]++
 	x.logf("add %v repeat-after=%v at %s: delivery event #%d (occurrence %d)", n, time.Duration(op.Repeat), x.fmtOff(occ), len(x.events)-1, n.occ)
 	return &x.events[len(x.events)-1], nil
+}
+
+// steppedBack handles the one situation in which the state is known to assign
+// an occurrence time that is NOT later than the previous ones (F-C08-1): the
+// wall clock was set back while snapd keeps running.  It looks at the
+// occurrence time the state recorded (in-package access, classification only).
+// If the state did what the model requires, the history simply goes on.  If
+// not, the case ends here: as a known-finding hit when the loss is visible to
+// a polling client, silently when it is not (the model cannot follow a time
+// line that runs backwards).
+func (x *c08Exec) steppedBack(op c08Op, id string, want int64) (stop bool, err error) {
+	x.st.Lock()
+	defer x.st.Unlock()
+	var sn *Notice
+	for _, n := range x.st.notices {
+		if n.id == id {
+			sn = n
+		}
+	}
+	if sn == nil || sn.lastOccurred.Equal(x.at(want)) {
+		return false, nil
+	}
+	x.logf("add (%d,%s,%q) at wall clock %s after a step back: recorded occurrence time %s, previous occurrence was at %s", op.User, op.Type, op.Key,
+		x.fmtOff(x.clock), c08FmtAfter(sn.lastOccurred, x), x.fmtOff(x.lastTs))
+	// A client that has seen everything so far asks for what is new.
+	if len(x.events) == 0 || !sn.lastRepeated.Equal(sn.lastOccurred) {
+		return true, errC08EndOfCase
+	}
+	lastSeen := x.events[len(x.events)-1]
+	got := x.st.Notices(&NoticeFilter{After: x.at(lastSeen.at)})
+	for _, n := range got {
+		if n.id == id {
+			return true, errC08EndOfCase
+		}
+	}
+	return true, verifkit.Knownf("F-C08-1", "wall clock set back while running: notice %s (%d,%s,%q) occurred/repeated at wall clock %s and got last-repeated %s, "+
+		"not later than the last-repeated %s of the previously delivered %v; a client polling with after=%s never receives it (got %d notices)\n-- history (last steps):\n%s",
+		id, op.User, op.Type, op.Key, x.fmtOff(x.clock), sn.lastRepeated.Format(time.RFC3339Nano), x.at(lastSeen.at).Format(time.RFC3339Nano), lastSeen.n,
+		x.at(lastSeen.at).Format(time.RFC3339Nano), len(got), x.tail())
 }
 
 // pending lists what the client must be given now: events after its cursor
@@ -545,22 +652,39 @@ func (x *c08Exec) reload() error {
 		return x.violate("cannot read back state: %v", err)
 	}
 	x.st = st2
+	x.addSinceReload, x.stepSinceAdd = false, false
 	x.labels["reload"] = true
 	x.logf("reload (%d bytes)", len(data))
 	return nil
 }
 
 func (x *c08Exec) tick(d int64) {
-	// keep well inside the non-expiring region whatever the history does
-	if x.clock+d < -int64(12*time.Hour) {
+	if d <= 0 {
 		return
 	}
-	if d < 0 {
-		x.labels["clock-back"] = true
-	}
 	x.clock += d
+	x.mono += d
+	x.gen++
 	x.setClock()
 	x.logf("tick %v -> clock %s", time.Duration(d), x.fmtOff(x.clock))
+}
+
+// c08StepElapsed is the time that passes while the wall clock is being set.
+const c08StepElapsed = int64(time.Millisecond)
+
+// step sets the wall clock back by d; the monotonic clock just goes on.
+func (x *c08Exec) step(d int64) {
+	// keep well inside the non-expiring region whatever the history does
+	if d <= 0 || x.clock+c08StepElapsed-d < -int64(12*time.Hour) {
+		return
+	}
+	x.clock += c08StepElapsed - d
+	x.mono += c08StepElapsed
+	x.gen++
+	x.stepSinceAdd = true
+	x.labels["wall-step-back"] = true
+	x.setClock()
+	x.logf("step: wall clock set back by %v -> clock %s (monotonic clock unaffected)", time.Duration(d), x.fmtOff(x.clock))
 }
 
 type c08WaitRes struct {
@@ -697,6 +821,9 @@ func (x *c08Exec) wait(op c08Op) error {
 		case "tick":
 			x.tick(sub.D)
 			continue
+		case "step":
+			x.step(sub.D)
+			continue
 		case "add":
 		default:
 			continue
@@ -786,6 +913,8 @@ func (x *c08Exec) apply(op c08Op) error {
 		return err
 	case "tick":
 		x.tick(op.D)
+	case "step":
+		x.step(op.D)
 	case "poll":
 		if op.Client >= 0 && op.Client < len(x.clients) {
 			return x.poll(op.Client)
@@ -834,8 +963,8 @@ func c08Valid(c c08Case) bool {
 				if op.User < -1 || op.User > 1<<32-1 || op.Repeat < 0 || op.Repeat > int64(48*time.Hour) {
 					return false
 				}
-			case "tick":
-				if op.D < -int64(time.Hour) || op.D > int64(6*time.Hour) {
+			case "tick", "step":
+				if op.D < 0 || op.D > int64(6*time.Hour) {
 					return false
 				}
 			case "wait":
@@ -869,7 +998,7 @@ func c08Run(c c08Case) (verifkit.Outcome, error) {
 			x2, err2 := c08ExecCase(c)
 			if x2.timedOut {
 				confirmed++
-			} else if err2 != nil {
+			} else if err2 != nil && !errors.Is(err2, errC08EndOfCase) {
 				return o, err2
 			}
 		}
@@ -878,6 +1007,11 @@ func c08Run(c c08Case) (verifkit.Outcome, error) {
 			os.Exit(3)
 		}
 		return o, verifkit.Violatef("%v\n(watchdog expiry confirmed in 3 of 3 re-runs on a fresh state)", err)
+	}
+	if errors.Is(err, errC08EndOfCase) {
+		o.Skip = true
+		o.Extra = map[string]int64{"ended_at_stepped_back_time_not_visible_to_clients": 1}
+		return o, nil
 	}
 	if err != nil {
 		return o, err
@@ -953,11 +1087,10 @@ func c08GenAdd(t *rapid.T, u c08Universe, target *c08Client) c08Op {
 }
 
 func c08GenTick(t *rapid.T) c08Op {
-	d := rapid.SampledFrom(c08Ticks).Draw(t, "d")
-	if rapid.IntRange(0, 11).Draw(t, "back") == 0 {
-		d = -rapid.SampledFrom([]int64{1, int64(time.Millisecond), int64(time.Second), int64(time.Hour)}).Draw(t, "backd")
+	if rapid.IntRange(0, 34).Draw(t, "back") == 0 {
+		return c08Op{K: "step", D: rapid.SampledFrom([]int64{int64(2 * time.Millisecond), int64(time.Second), int64(time.Minute), int64(time.Hour)}).Draw(t, "backd")}
 	}
-	return c08Op{K: "tick", D: d}
+	return c08Op{K: "tick", D: rapid.SampledFrom(c08Ticks).Draw(t, "d")}
 }
 
 func c08GenBad(t *rapid.T, u c08Universe) c08Op {
@@ -1048,6 +1181,9 @@ func c08Gen(t *rapid.T) c08Case {
 }
 
 func TestVerifC08(t *testing.T) {
+	if err := c08TimeSelfTest(); err != nil {
+		t.Fatalf("HARNESS: cannot build monotonic-carrying time values with this toolchain: %v", err)
+	}
 	verifkit.Check(t, verifkit.Spec[c08Case]{
 		ID: "C08", Engine: "history",
 		Gen: c08Gen,
